@@ -509,10 +509,15 @@ def step_thresholds(ctx, prog):
             for s in f.blocks[rb]["stmts"]:
                 if s["s"] == "assign" and s["lhs"]["l"] == 1:
                     stores[pl(s["lhs"]).split(".")[-1]] = canon(strip(sy.rvalue(s["rv"])))
+        def dbl(x, ty):
+            # doubling modulo 2^n: `x.wrapping_mul(2)`, `x << 1`, `x.wrapping_add(x)` are the same word for every x
+            return ("core::num::<impl %s>::wrapping_mul(%s,2)" % (ty, x), "Shl(%s,1)" % x, "core::num::<impl %s>::wrapping_add(%s,%s)" % (ty, x, x),
+                    "core::num::<impl %s>::wrapping_shl(%s,1)" % (ty, x))
         want = {
             "bhidx_start": lambda v: v == "Add(param:self.0.bhidx_start,1)",
-            "roll_mask": lambda v: v == "core::num::<impl u32>::wrapping_add(core::num::<impl u32>::wrapping_mul(param:self.0.roll_mask,2),1)",
-            "elim_border": lambda v: v == "core::num::<impl u64>::wrapping_mul(param:self.0.elim_border,2)",
+            "roll_mask": lambda v: v in tuple("core::num::<impl u32>::wrapping_add(%s,1)" % d for d in dbl("param:self.0.roll_mask", "u32")) or
+            v in tuple("BitOr(%s,1)" % d for d in dbl("param:self.0.roll_mask", "u32")),
+            "elim_border": lambda v: v in dbl("param:self.0.elim_border", "u64"),
         }
         bad = [k for k, p in want.items() if k not in stores or not p(stores[k])]
         ctx.ob(RS, "%s: elimination advances bhidx_start by 1, roll_mask to 2*roll_mask+1 and elim_border to 2*elim_border together" % nm, not bad,
